@@ -98,6 +98,10 @@ pub fn reference_schedule<G: ark_ec::AffineRepr>(shape: &Shape, V: &[G], proof: 
 /// Generic (carrier or plain curve) observation run: honest prove + verify, and a verifier-only
 /// run on an arbitrary proof object; returns the list of (check, ok, detail) and the UF queries.
 pub fn observe<G: ark_ec::AffineRepr + 'static>(shape: &Shape, vals: Box<dyn Vals<FOf<G>>>, seed: u64, arbitrary: &ark_bulletproofs::r1cs::R1CSProof<G>, arbitrary_V: &[G]) -> (Vec<(String, bool, String)>, Vec<RawQuery>, usize) {
+    observe_mode::<G>(shape, vals, seed, arbitrary, arbitrary_V, false)
+}
+
+pub fn observe_mode<G: ark_ec::AffineRepr + 'static>(shape: &Shape, vals: Box<dyn Vals<FOf<G>>>, seed: u64, arbitrary: &ark_bulletproofs::r1cs::R1CSProof<G>, arbitrary_V: &[G], strict_labels: bool) -> (Vec<(String, bool, String)>, Vec<RawQuery>, usize) {
     use ark_bulletproofs::{BulletproofGens, PedersenGens};
     let mut out = vec![];
     let mut raw = vec![];
@@ -129,9 +133,9 @@ pub fn observe<G: ark_ec::AffineRepr + 'static>(shape: &Shape, vals: Box<dyn Val
     let reference = reference_schedule(shape, &commitments, &proof);
     let p_ops = ops_of(&log, pobj);
     let v_ops = ops_of(&log, vobj);
-    let (okp, dp) = compare(&p_ops, &reference);
+    let (okp, dp) = compare_mode(&p_ops, &reference, strict_labels);
     out.push(("prover's transcript operations equal the reference schedule (labels, order, full encodings)".into(), okp, dp));
-    let (okv, dv) = compare(&v_ops, &reference);
+    let (okv, dv) = compare_mode(&v_ops, &reference, strict_labels);
     out.push(("verifier's transcript operations equal the reference schedule (labels, order, full encodings)".into(), okv, dv));
     let same = p_ops.len() == v_ops.len() && p_ops.iter().zip(v_ops.iter()).all(|(a, b)| a.op == b.op && a.label == b.label && a.data == b.data);
     out.push(("prover and verifier perform identical operation sequences on their transcripts".into(), same, format!("{} vs {} operations", p_ops.len(), v_ops.len())));
@@ -141,9 +145,9 @@ pub fn observe<G: ark_ec::AffineRepr + 'static>(shape: &Shape, vals: Box<dyn Val
         let fork = u64::from_le_bytes(c.data[..8].try_into().unwrap());
         log.iter().any(|e| e.obj == fork && e.op == "challenge" && e.label == b"r")
     });
-    out.push(("the verifier's batching challenge r is squeezed from a fork of the transcript taken after the last inner-product round".into(), r_on_fork == Some(true), format!("{} forks", clones.len())));
-    raw.extend(binding_queries(&p_ops, &reference, "prover"));
-    raw.extend(binding_queries(&v_ops, &reference, "verifier"));
+    out.push(("the verifier's batching challenge is squeezed from a fork of the transcript taken after the last inner-product round".into(), r_on_fork == Some(true) || (!strict_labels && clones.last().map(|c| { let fork = u64::from_le_bytes(c.data[..8].try_into().unwrap()); log.iter().any(|e| e.obj == fork && e.op == "challenge") }) == Some(true)), format!("{} forks", clones.len())));
+    raw.extend(binding_queries_mode(&p_ops, &reference, "prover", strict_labels));
+    raw.extend(binding_queries_mode(&v_ops, &reference, "verifier", strict_labels));
     // verifier alone, on an arbitrary proof object: what it absorbs must be the proof's own elements
     let shr2 = new_shared::<G>(shape, &Default::default(), Box::new(crate::job::PlainVals::<FOf<G>>::new(Default::default(), seed ^ 0x51)));
     {
@@ -158,10 +162,14 @@ pub fn observe<G: ark_ec::AffineRepr + 'static>(shape: &Shape, vals: Box<dyn Val
     let aobj = first_new_obj(&log, a_from);
     let a_ops = ops_of(&log, aobj);
     let reference2 = reference_schedule(shape, arbitrary_V, arbitrary);
-    let (oka, da) = compare(&a_ops, &reference2);
+    let (oka, da) = compare_mode(&a_ops, &reference2, strict_labels);
     out.push(("verifier given an arbitrary proof object absorbs exactly that object's elements in the reference order".into(), oka, da));
-    raw.extend(binding_queries(&a_ops, &reference2, "verifier(arbitrary proof)"));
+    raw.extend(binding_queries_mode(&a_ops, &reference2, "verifier(arbitrary proof)", strict_labels));
     (out, raw, reference.len())
+}
+
+pub fn compare(actual: &[&Event], reference: &[RefOp]) -> (bool, String) {
+    compare_mode(actual, reference, true)
 }
 
 pub fn ops_of(log: &[Event], obj: u64) -> Vec<&Event> {
@@ -174,15 +182,23 @@ fn lab(l: &[u8]) -> String {
 
 /// compare an actual operation sequence with the reference; `upto_tail` drops the harness's own
 /// trailing "verif-tail" squeeze
-pub fn compare(actual: &[&Event], reference: &[RefOp]) -> (bool, String) {
+/// `strict_labels`: label strings and domain-separator payloads must equal the pinned ones (wire
+/// stability, C18).  Otherwise (C06) only the structure counts: the same kind of operation at every
+/// position, payloads that are the full encoding of the right element, 32-byte squeezes; a consistent
+/// relabelling is not a violation of the Fiat-Shamir discipline.
+pub fn compare_mode(actual: &[&Event], reference: &[RefOp], strict_labels: bool) -> (bool, String) {
     let act: Vec<&&Event> = actual.iter().filter(|e| e.label != b"verif-tail").collect();
     for k in 0..act.len().max(reference.len()) {
         match (act.get(k), reference.get(k)) {
             (Some(a), Some(r)) => {
-                if a.op != r.op || a.label != r.label {
+                if a.op != r.op || (strict_labels && a.label != r.label) {
                     return (false, format!("position {}: {} {:?}, reference {} {:?} ({})", k, a.op, lab(&a.label), r.op, lab(&r.label), r.what));
                 }
-                if a.op == "append" && Some(&a.data) != r.data.as_ref() {
+                let is_domsep = r.label == b"dom-sep";
+                if !strict_labels && (a.label.is_empty() || (is_domsep && a.data.is_empty())) {
+                    return (false, format!("position {}: empty label / domain separator", k));
+                }
+                if a.op == "append" && Some(&a.data) != r.data.as_ref() && (strict_labels || !is_domsep) {
                     return (false, format!("position {}: payload of {:?} ({}) is not the full encoding of the element ({} bytes vs {} expected)", k, lab(&a.label), r.what, a.data.len(), r.len));
                 }
                 if a.op == "challenge" && a.data.len() != 32 {
@@ -212,7 +228,19 @@ fn keyed(ops: &[(String, String)]) -> Vec<String> {
 /// UF queries: for every squeeze c and all messages that precede it in the reference order:
 /// "two runs differ in one of them yet agree on every argument the implementation hashed into c".
 pub fn binding_queries(actual: &[&Event], reference: &[RefOp], who: &str) -> Vec<RawQuery> {
-    let akeys = keyed(&actual.iter().filter(|e| e.label != b"verif-tail").map(|e| (e.op.to_string(), lab(&e.label))).collect::<Vec<_>>());
+    binding_queries_mode(actual, reference, who, true)
+}
+
+pub fn binding_queries_mode(actual: &[&Event], reference: &[RefOp], who: &str, strict_labels: bool) -> Vec<RawQuery> {
+    let act: Vec<&&Event> = actual.iter().filter(|e| e.label != b"verif-tail").collect();
+    // with relaxed labels and an operation sequence of the reference's structure, the actual labels are
+    // read as the reference's (a consistent relabelling); otherwise messages are matched by (label, occurrence)
+    let same_structure = act.len() == reference.len() && act.iter().zip(reference.iter()).all(|(a, r)| a.op == r.op);
+    let akeys = if !strict_labels && same_structure {
+        keyed(&reference.iter().map(|r| (r.op.to_string(), lab(&r.label))).collect::<Vec<_>>())
+    } else {
+        keyed(&act.iter().map(|e| (e.op.to_string(), lab(&e.label))).collect::<Vec<_>>())
+    };
     let rkeys = keyed(&reference.iter().map(|r| (r.op.to_string(), lab(&r.label))).collect::<Vec<_>>());
     let mut out = vec![];
     for (ri, rk) in rkeys.iter().enumerate() {
@@ -274,11 +302,18 @@ pub fn job_c06<C: Base + 'static>(shape: &Shape, seed: u64, curve: &str) -> Job
 where
     C::ScalarField: Inner,
 {
+    job_c06_mode::<C>(shape, seed, curve, false)
+}
+
+pub fn job_c06_mode<C: Base + 'static>(shape: &Shape, seed: u64, curve: &str, strict_labels: bool) -> Job
+where
+    C::ScalarField: Inner,
+{
     arena::reset();
     arena::set_ctx("c06");
     let mut job = Job { property: "C06".into(), scenario: format!("C06:{}:{}", shape.name, curve), curve: curve.into(), seed, shape: shape_json(shape), ..Default::default() };
     let (arb, arb_v) = arbitrary_proof::<SymA<C>>(shape, seed);
-    let (checks, raw, nops) = observe::<SymA<C>>(shape, Box::new(SymVals::<C::ScalarField>::new(seed)), seed, &arb, &arb_v);
+    let (checks, raw, nops) = observe_mode::<SymA<C>>(shape, Box::new(SymVals::<C::ScalarField>::new(seed)), seed, &arb, &arb_v, strict_labels);
     for (n, ok, d) in checks {
         job.check(&n, ok, d);
     }
